@@ -290,7 +290,7 @@ pub fn record(args: &Args) -> i32 {
 			// the read loop ends on end-of-stream (or on the refusal) and shuts the socket down
 			let _ = w.set_read_timeout(Some(Duration::from_secs(20)));
 			let mut buf = [0u8; 256];
-			let mut closed = false;
+			let closed;
 			loop {
 				match w.read(&mut buf) {
 					Ok(0) => {
